@@ -1,5 +1,6 @@
 import Exetera.Props.C06
 import Exetera.Lemmas.GenKernelsCategorical
+import Exetera.Lemmas.GenKernelsLeaky
 /-!
   C06 over the TRANSLATED import transforms (`Gen/Kernels.lean`, regenerated from operations.py by tools/translate_njit.py on every
   run).
@@ -10,6 +11,9 @@ import Exetera.Lemmas.GenKernelsCategorical
     and not refinement because the model folds the subscript of the column (`withCol`) and reports the key loop's stores as one
     optional value per row.
   * `gen_categorical_exact_match`: the property statement `C06.categorical_exact_match` for the translated kernel itself.
+  * `gen_leaky_categorical_transform_ok` (transfer, for chunks whose row offsets do not decrease at the rows written: the model computes
+    the length of a free-text cell in `Nat`, the code in signed arithmetic), `gen_leaky_transform_chunk` (the statement of
+    `C06.leaky_transform_chunk` for the translated `leaky_categorical_transform`).
 -/
 namespace Exetera.Props.C06Gen
 
@@ -30,6 +34,34 @@ theorem gen_categorical_exact_match (cats : List (Bytes × Int)) (hnd : (cats.ma
       (ints (getByteMap cats).keys) (ints (getByteMap cats).index) (getByteMap cats).values
       = .ok (cells.map (catCode cats)) :=
   categorical_transform_ok _ c cinds coffs hst _ (C06.categorical_exact_match cats hnd c cells h)
+
+/-! ## leaky_categorical_transform -/
+
+theorem gen_leaky_categorical_transform_ok (bm : ByteMap) (c : Chunk) (cinds : List (List Int)) (coffs : List Int)
+    (hst : Staged c cinds coffs) (hmono : NonDecreasingBelow c.rows c.inds) (r : LeakyBuf) (h : leakyTransform bm c = .ok r) :
+    leaky_categorical_transform.run (List.replicate c.rows 0) (List.replicate (c.rows + 1) 0) (List.replicate c.cap 0)
+      (c.col : Int) cinds (ints c.vals) coffs (ints bm.keys) (ints bm.index) bm.values
+      = .ok (r.chunk, ints r.ftIdx, ints r.ftVals) :=
+  leaky_categorical_transform_ok bm c cinds coffs hst hmono r h
+
+/-- `leaky_categorical_transform` as translated, on a chunk the reader filled, with the three zero-filled buffers
+    `LeakyCategoricalImporter.import_part` allocates: it returns normally (every subscript and both slices in range) with the codes
+    (`-1` for a cell that is no key), the free-text offsets counted from 0, and the free-text bytes followed by zero padding -/
+theorem gen_leaky_transform_chunk (cats : List (Bytes × Int)) (hnd : (cats.map (·.1)).Nodup) (c : Chunk)
+    (cells : List Bytes) (h : Encodes c cells) (cinds : List (List Int)) (coffs : List Int) (hst : Staged c cinds coffs) :
+    ∃ pad, leaky_categorical_transform.run (List.replicate c.rows 0) (List.replicate (c.rows + 1) 0) (List.replicate c.cap 0)
+        (c.col : Int) cinds (ints c.vals) coffs (ints (getByteMap cats).keys) (ints (getByteMap cats).index)
+        (getByteMap cats).values
+      = .ok (cells.map (leakyCode cats), ints (offsets 0 (cells.map (fun x => (freeText cats x).length))),
+          ints ((cells.map (freeText cats)).flatten ++ List.replicate pad 0)) := by
+  obtain ⟨pad, hm⟩ := C06.leaky_transform_chunk cats hnd c cells h
+  exact ⟨pad, leaky_categorical_transform_ok _ c cinds coffs hst (encodes_nonDecreasingBelow c cells h) _ hm⟩
+
+example : leaky_categorical_transform.run [0, 0, 0] [0, 0, 0, 0] [0, 0, 0, 0, 0, 0, 0] 1 [[0, 0, 0, 0, 0], [0, 2, 2, 5, 9]]
+    [88, 88, 97, 98, 97, 98, 99, 88, 88] [0, 2, 9] [97, 97, 98, 99] [0, 1, 4] [1, 7]
+    = .ok ([-1, -1, 7], [0, 2, 2, 2], [97, 98, 0, 0, 0, 0, 0]) := by rfl
+example : NonDecreasingBelow C06.demoChunk.rows C06.demoChunk.inds :=
+  encodes_nonDecreasingBelow _ _ C06.demo_encodes
 
 example : Staged C06.demoChunk [[0, 0, 0, 0, 0], [0, 2, 2, 5, 9]] [0, 2, 9] := ⟨rfl, rfl⟩
 example : categorical_transform.run [0, 0, 0] 1 [[0, 0, 0, 0, 0], [0, 2, 2, 5, 9]] [88, 88, 97, 98, 97, 98, 99, 88, 88] [0, 2, 9]
